@@ -35,6 +35,11 @@ pub fn host_name(id: u8) -> String {
     format!("n{id}")
 }
 
+/// every node id has a second host (another IP address) it can move to
+pub fn alt_host_name(id: u8) -> String {
+    format!("n{id}x")
+}
+
 #[derive(Serialize, Deserialize, Clone, Debug)]
 pub struct NodeCfg {
     pub id: u8,
@@ -133,6 +138,8 @@ pub struct Shared {
     pub replays_sent: u64,
     pub replay_errors: u64,
     pub up: BTreeSet<u8>,
+    /// host each node id currently runs on (a node can move to its alternative address)
+    pub cur_host: BTreeMap<u8, String>,
 }
 
 pub type SharedRef = Rc<RefCell<Shared>>;
@@ -191,6 +198,7 @@ impl<'a> Cluster<'a> {
             replays_sent: 0,
             replay_errors: 0,
             up: BTreeSet::new(),
+            cur_host: cfg.nodes.iter().map(|n| (n.id, host_name(n.id))).collect(),
         }));
         // wall clock: base + host elapsed + per-node skew + scheduled jumps
         let clock_jumps: Rc<RefCell<BTreeMap<u8, i64>>> = Rc::new(RefCell::new(BTreeMap::new()));
@@ -222,19 +230,25 @@ impl<'a> Cluster<'a> {
             })));
         }
         for n in &cfg.nodes {
-            let sh = shared.clone();
-            let ncfg = n.clone();
-            let all: Vec<NodeCfg> = cfg.nodes.clone();
-            let repair_ms = cfg.repair_interval_ms;
-            sim.host(host_name(n.id), move || {
-                let sh = sh.clone();
-                let ncfg = ncfg.clone();
-                let all = all.clone();
-                async move {
-                    tokio::task::yield_now().await;
-                    node_main(sh, ncfg, all, repair_ms).await
-                }
-            });
+            for host in [host_name(n.id), alt_host_name(n.id)] {
+                let sh = shared.clone();
+                let ncfg = n.clone();
+                let all: Vec<NodeCfg> = cfg.nodes.clone();
+                let repair_ms = cfg.repair_interval_ms;
+                let h2 = host.clone();
+                sim.host(host.clone(), move || {
+                    let sh = sh.clone();
+                    let ncfg = ncfg.clone();
+                    let all = all.clone();
+                    let host = h2.clone();
+                    async move {
+                        tokio::task::yield_now().await;
+                        node_main(sh, ncfg, all, repair_ms, host).await
+                    }
+                });
+            }
+            // the alternative address is dark until the node moves there
+            sim.crash(alt_host_name(n.id));
         }
         // every node's address is known up front
         for n in &cfg.nodes {
@@ -286,16 +300,39 @@ impl<'a> Cluster<'a> {
         }
     }
 
+    pub fn host_of(&self, node: u8) -> String {
+        self.shared.borrow().cur_host.get(&node).cloned().unwrap_or_else(|| host_name(node))
+    }
+
     pub fn crash(&mut self, node: u8) {
         self.shared.borrow_mut().up.remove(&node);
         self.shared.borrow_mut().cmd_tx.remove(&node);
         self.shared.borrow_mut().member_tx.remove(&node);
-        self.sim.crash(host_name(node));
+        let h = self.host_of(node);
+        self.sim.crash(h);
         // in-flight storage calls die with the host; nothing is parked in E2
     }
 
     pub fn restart(&mut self, node: u8) {
-        self.sim.bounce(host_name(node));
+        let h = self.host_of(node);
+        self.sim.bounce(h);
+    }
+
+    /// The node is stopped and comes back on its other address (same storage, same node id).
+    pub fn move_node(&mut self, node: u8) {
+        let was_up = self.shared.borrow().up.contains(&node);
+        if was_up {
+            self.crash(node);
+        }
+        let cur = self.host_of(node);
+        let next = if cur == host_name(node) { alt_host_name(node) } else { host_name(node) };
+        let ip = self.sim.lookup(next.clone());
+        {
+            let mut sh = self.shared.borrow_mut();
+            sh.cur_host.insert(node, next.clone());
+            sh.addrs.insert(node, SocketAddr::new(ip, PORT));
+        }
+        self.sim.bounce(next);
     }
 
     pub fn all_ids(&self) -> Vec<u8> {
@@ -309,9 +346,9 @@ impl<'a> Drop for Cluster<'a> {
     }
 }
 
-async fn node_main(sh: SharedRef, me: NodeCfg, _all: Vec<NodeCfg>, repair_ms: u64) -> turmoil::Result {
+async fn node_main(sh: SharedRef, me: NodeCfg, _all: Vec<NodeCfg>, repair_ms: u64, host: String) -> turmoil::Result {
     let id = me.id;
-    let me_addr: SocketAddr = (turmoil::lookup(host_name(id)), PORT).into();
+    let me_addr: SocketAddr = (turmoil::lookup(host), PORT).into();
     let server = datacake_rpc::Server::listen((IpAddr::from(Ipv4Addr::UNSPECIFIED), PORT).into()).await?;
     let clock = Clock::new(id);
     let network = RpcNetwork::default();
